@@ -5,7 +5,7 @@ from fractions import Fraction
 
 from sa.report import Cx
 from sa.walker import WalkOptions, _Ctx, State
-from sa.terms import (Sym, Attr, Sub, App, Num, Const, Fresh, TupleT, ATruthy, AEq, AIsInst, f_and, f_or, f_not, compare, implies,
+from sa.terms import (Sym, Attr, Sub, App, Num, Const, Fresh, TupleT, IfT, ATruthy, AEq, AIsInst, f_and, f_or, f_not, compare, implies,
                       mk_cmp, mk_minmax, mk_abs, add, sub, drop_literals, atoms_of)
 from .common import CORE, ENV, strip_versions
 from .geom import AXES, ZERO, ONE, positive, extent_domain
@@ -52,7 +52,7 @@ def _check_query(cx: Cx, fn, manhattan: bool):
         iters = [e for e in p.events if e.kind == 'iter']
         if len(iters) == 3 and p.end != 'raise':
             full.append((p, iters))
-    cx.floor(f"{fn.name}: paths through all three loops", len(full), 8)
+    cx.floor(f"{fn.name}: paths through all three loops", len(full), 1)
     if not full:
         return
     # the centre term
@@ -115,6 +115,23 @@ def _check_query(cx: Cx, fn, manhattan: bool):
             pos = implies(p.cond, positive(E), assume=dom, domain='int') is None
             flat = implies(p.cond, f_not(positive(E)), assume=dom, domain='int') is None
             lo, hi = info['lo'], info['hi']
+            if not pos and not flat and (isinstance(lo, IfT) or isinstance(hi, IfT)):
+                # the bound itself is a conditional expression on the extent: judge it in both extent cases
+                okc = True
+                for case_pos in (True, False):
+                    asm = positive(E) if case_pos else f_not(positive(E))
+                    l2, h2 = _resolve_ift(lo, asm, dom), _resolve_ift(hi, asm, dom)
+                    if case_pos:
+                        w_lo, w_hi = mk_minmax('max', [ZERO, sub(c[i], radius)]), mk_minmax('min', [E, add(add(c[i], radius), ONE)])
+                    else:
+                        w_lo, w_hi = ZERO, ONE
+                    n_bounds += 1
+                    if (l2, h2) != (w_lo, w_hi):
+                        okc = False
+                        viol('R-GUARD', f"{ax}-bounds-clip-the-ball-to-the-grid",
+                             f"{fn.name}: with {ext} {'positive' if case_pos else 'zero'} the {ax} loop runs over range({l2!r}, {h2!r}); the "
+                             f"ball [c-r, c+r] clipped to the grid is range({w_lo!r}, {w_hi!r})", cx.where(fn, iters[0].line), path=p.lines())
+                continue
             if pos:
                 wlo = mk_minmax('max', [ZERO, sub(c[i], radius)])
                 whi = mk_minmax('min', [E, add(add(c[i], radius), ONE)])
@@ -130,7 +147,7 @@ def _check_query(cx: Cx, fn, manhattan: bool):
                      f"{fn.name}: with {ext} {'positive' if pos else 'zero'} the {ax} loop runs over range({lo!r}, {hi!r}); the "
                      f"ball [c-r, c+r] clipped to the grid is range({wlo!r}, {whi!r})", cx.where(fn, iters[0].line),
                      found=f"range({lo!r}, {hi!r})", expected=f"range({wlo!r}, {whi!r})", path=p.lines())
-    cx.floor(f"{fn.name}: axis bounds examined", n_bounds, 24)
+    cx.floor(f"{fn.name}: axis bounds examined", n_bounds, 6)
     if not any(k.endswith('bounds-clip-the-ball-to-the-grid') or k.startswith('three') for k in reported):
         cx.ok('R-GUARD', f"{fn.name}: per-axis bounds == [c-r, c+r] clipped to the grid, z>y>x nesting", where=cx.where(fn),
               function=fn.qualname, paths=len(full))
@@ -186,11 +203,23 @@ def _check_query(cx: Cx, fn, manhattan: bool):
     else:
         viol('R-GUARD', 'unsupported-ret_type-raises-TypeError', f"{fn.name}: an unsupported ret_type does not raise TypeError",
              cx.where(fn))
-    for p, iters in full[:1]:
+    with_apps = [(p, iters) for p, iters in full if any(e.kind == 'store' and e.data.get('store') == 'append' for e in p.events)]
+    for p, iters in with_apps[:1]:
         v = p.last.data.get('value') if p.end == 'return' else None
         apps = [e for e in p.events if e.kind == 'store' and e.data.get('store') == 'append']
         if not (isinstance(v, Fresh) and apps and strip_versions(apps[0].data.get('target')) == v):
             viol('R-FRESH', 'returns-the-collected-list', f"{fn.name} returns {v!r}, not the list it collected", cx.where(fn))
+
+
+def _resolve_ift(t, assumption, dom):
+    """Pick the arm of a conditional term that applies under `assumption`."""
+    from sa.terms import IfT as _IfT
+    if isinstance(t, _IfT):
+        if implies(assumption, t.cond, assume=dom, domain='int') is None:
+            return _resolve_ift(t.a, assumption, dom)
+        if implies(assumption, f_not(t.cond), assume=dom, domain='int') is None:
+            return _resolve_ift(t.b, assumption, dom)
+    return t
 
 
 def AEq_type(t, name):
